@@ -54,6 +54,8 @@ def gen_cases(seed, tier):
                 'hi': min(N * N, blk + 64)})
     for j in range(120 if q else 2000):
         out.append({'kind': 'svd_matrix', 'seed': int(rng.integers(1 << 62))})
+    for j in range(24 if q else 300):
+        out.append({'kind': 'longthin', 'seed': int(rng.integers(1 << 62))})
     return out
 
 
@@ -91,6 +93,10 @@ def judge_factor(ctx, name, A, U, V, e, r, rel, give_to):
         return
     gram = give_to is None
     noise = np.sqrt(50 * EPS) * s1 if gram else 50 * EPS * s1 * np.sqrt(min(m, n))
+    # inner products over the long side accumulate rounding in proportion to
+    # their length (gamma_L = L eps): measured 4 / 17 / 121 eps s1 sqrt(k) at
+    # L = 2e3 / 4e4 / 2e5; the allowance grows linearly beyond 2000
+    noise *= max(1., max(m, n) / 2000.)
     mon = 'msvd-product' if gram else 'skel-product'
     err = ref.fro(np.asarray(U, dtype=ref.LD) @ np.asarray(V, dtype=ref.LD) - A)
     ctx.check(mon, err <= ref.tail(s, q) * (1 + 1e-9) + noise,
@@ -137,12 +143,16 @@ def judge_svd(ctx, A, Z, e, r):
     ctx.check('svd-structure', all(q <= cap for q in rout),
         f'svd ranks {rout} exceed cap {cap}')
     nrm = ref.fro(A)
-    if not nrm > 0 or A.size > 6000 or d < 2:
+    thin = d >= 2 and n[0] <= 8 and A.size <= 1200000
+    if not nrm > 0 or (A.size > 6000 and not thin) or d < 2:
         ctx.skip('svd-error-bound', 'zero-or-too-big')
         return
     sv = [ref.unfold_svals(A, k) for k in range(1, d)]
     err = ref.fro(np.asarray(ref.dense_ld(Z), dtype=float) - A)
     floor = 50 * d * EPS * nrm
+    # (long unfoldings: see judge_factor)
+    floor *= max(1., max(max(int(np.prod(n[:k])), int(np.prod(n[k:])))
+        for k in range(1, d)) / 2000.)
     if all(q < cap for q in rout[1:-1]):
         ctx.check('svd-error-bound',
             err <= e * np.sqrt(d - 1) * (1 + 1e-9) + floor,
@@ -167,6 +177,13 @@ def _doc_skeleton(A, e=1.E-10, r=1.E+12, hermitian=False, rel=False,
     by it, not by whatever the implementation currently declares."""
 
 
+def _judgeable(A):
+    """Size limit of the dense-SVD reference: 40000 entries, or a thin matrix
+    (one side <= 8) of up to 1.2e6 entries."""
+    return A.ndim == 2 and (A.size <= 40000 or (min(A.shape) <= 8
+        and A.size <= 1200000))
+
+
 def make_skeleton(orig):
     sig = docsig.sig('matrix_skeleton')
 
@@ -180,7 +197,7 @@ def make_skeleton(orig):
         sym = A0.ndim == 2 and A0.shape[0] == A0.shape[1] and \
             np.array_equal(A0, A0.T)
         if ctx is not None and (not a['hermitian'] or sym) and \
-                A0.size <= 40000:
+                _judgeable(A0):
             judge_factor(ctx, 'matrix_skeleton', A0, U, V, float(a['e']),
                 float(a['r']), bool(a['rel']), str(a['give_to'])
                 if a['give_to'] in ('l', 'r') else 'm')
@@ -199,7 +216,7 @@ def make_msvd(orig):
         A0 = np.array(a['A'], dtype=float, copy=True)
         U, V = orig(*args, **kw)
         ctx = core.CUR
-        if ctx is not None and A0.size <= 40000:
+        if ctx is not None and _judgeable(A0):
             judge_factor(ctx, 'matrix_svd', A0, U, V, float(a['e']),
                 float(a['r']), False, None)
             U, V = sanit.hand_out((U, V))
@@ -409,6 +426,33 @@ def run_special(case, ctx):
     ctx.nontrivial(['special', k, m, n])
 
 
+def run_longthin(case, ctx):
+    """Unfoldings with one very long side (4e4..2e5) and a few genuine
+    singular values 9..11.5 decades below the first, accuracy far below them:
+    the rank rule speaks about tail energy and e only, not about the size of
+    the matrix (every call is judged by the interposed monitors)."""
+    import teneva
+    rng = np.random.default_rng(case['seed'])
+    k = int(rng.integers(2, 5))
+    L = int(rng.integers(40000, 200001))
+    sv = np.concatenate([[1.], 10.0 ** -np.sort(rng.uniform(9, 11.5,
+        size=k - 1))]) * 10.0 ** rng.uniform(-3, 3)
+    U, _ = np.linalg.qr(rng.normal(size=(k, k)))
+    V, _ = np.linalg.qr(rng.normal(size=(L, k)))
+    A = (U * sv) @ V.T
+    e = float(sv[-1]) * 0.03
+    give_to = 'lmr'[int(rng.integers(3))]
+    teneva.matrix_skeleton(A, e, 1e12, rel=False, give_to=give_to)
+    teneva.matrix_skeleton(np.ascontiguousarray(A.T), float(sv[-1] / sv[0])
+        * 0.03, 1e12, rel=True, give_to=give_to)
+    # the same through the TT-SVD of a 3-D array whose first unfolding is A
+    a = int(rng.integers(100, 400))
+    B = A[:, :(L // a) * a].reshape(k, a, L // a)
+    teneva.svd(B, e)
+    ctx.event('long-thin-unfoldings')
+    ctx.nontrivial(['longthin', k, L // 10000])
+
+
 def bits(i, q):
     return [(i >> k) & 1 for k in range(q)]
 
@@ -489,4 +533,5 @@ def run_svd_matrix(case, ctx):
 
 def run_case(case, ctx):
     {'svd': run_svd, 'matrix': run_matrix, 'unit': run_unit, 'special': run_special,
-        'svd_matrix': run_svd_matrix}[case['kind']](case, ctx)
+        'svd_matrix': run_svd_matrix, 'longthin': run_longthin}[case['kind']](
+        case, ctx)
